@@ -9,7 +9,7 @@ from concurrent.futures import ThreadPoolExecutor
 
 VERIF = os.path.dirname(os.path.dirname(os.path.abspath(__file__)))
 REPO = os.environ.get("VERIF_REPO", "/repo")
-BUILD = os.path.join(VERIF, "build")
+BUILD = os.environ.get("VERIF_BUILD", os.path.join(VERIF, "build"))     # overridable together with VERIF_REPO so that a seeded tree can be checked in isolation
 CFG = os.path.join(BUILD, "cfg")
 ENGINE = os.path.join(VERIF, "engine")
 GUARD = "PLIBSYS_VERIF"
